@@ -314,6 +314,15 @@ Qed.
 (* ---------------------------------------------------------------------------------- *)
 (* the loop over the rows: one entry per group key, holding the fold of its members     *)
 
+Lemma NoDup_app_snoc {A} (l : list A) x : NoDup l -> ~ In x l -> NoDup (l ++ [x]).
+Proof.
+  intros ND Hx. induction ND as [|a l Ha ND IH]; cbn.
+  - constructor; auto. constructor.
+  - constructor.
+    + rewrite in_app_iff. cbn. intros [H|[H|[]]]; auto. subst. apply Hx. left; auto.
+    + apply IH. intros H. apply Hx. right; auto.
+Qed.
+
 Section Loop.
 Variables (sl : list derivedcol) (gb : list colref).
 
@@ -426,7 +435,7 @@ Lemma agg_step_inv gs done rw :
   exists gs', agg_step sl gb gs rw = Ok gs' /\ Inv gs' (done ++ [rw]).
 Proof.
   intros I Gd Gr. unfold agg_step.
-  rewrite group_key_pure by (apply ints_at_length; exact Gr). cbn [obind].
+  rewrite group_key_pure by (apply ints_at_length; exact Gr). cbn [Select.obind].
   set (k := mkey sl gb rw).
   destruct (find_group k gs) as [[rep cs]|] eqn:F.
   - (* existing group *)
@@ -489,3 +498,273 @@ Proof.
 Qed.
 
 End Loop.
+
+(* ---------------------------------------------------------------------------------- *)
+(* the cells of a representative, column by column                                     *)
+
+Lemma rep_fold_nil ms : forall n, rep_fold [] [] n ms = [].
+Proof. induction ms as [|m ms IH]; intros n; cbn; auto. Qed.
+
+Lemma group_rep_cons d sl fs grp : grp <> [] ->
+  group_rep (d :: sl) (map (seed (d :: sl) fs) grp) =
+  cell_fold d (map (seed_cell d fs) grp) :: group_rep sl (map (seed sl fs) grp).
+Proof.
+  destruct grp as [|b1 rest]; [congruence|]. intros _. cbn [map group_rep seed cols_q cell_fold].
+  rewrite rep_fold_cons.
+  - rewrite !map_map. cbn. reflexivity.
+  - rewrite Forall_forall. intros m Hm. apply in_map_iff in Hm. destruct Hm as [b [<- _]]. discriminate.
+Qed.
+
+Lemma cell_fold_from_plain d y n xs : is_avg d = false -> is_count d = false -> cell_fold_from d y n xs = y.
+Proof.
+  intros A C. revert y n. induction xs as [|x xs IH]; intros y n; cbn; auto.
+  rewrite IH. unfold cell_upd. unfold is_avg, is_count in *. destruct (dc_prim d); auto; discriminate.
+Qed.
+
+Definition zsum (xs : list value) : Z := fold_right Z.add 0%Z (map int_of xs).
+
+Lemma cell_fold_from_count d a n xs : is_count d = true ->
+  cell_fold_from d (VInt a) n xs = VInt (a + zsum xs).
+Proof.
+  intros C. revert a n. induction xs as [|x xs IH]; intros a n; cbn.
+  - f_equal. unfold zsum. cbn. lia.
+  - unfold cell_upd at 1. unfold is_count in C. destruct (dc_prim d) eqn:E; try discriminate.
+    cbn. rewrite IH. f_equal. unfold zsum. cbn. lia.
+Qed.
+
+Lemma cell_fold_from_avg_int d a n xs : is_avg d = true -> exists z, cell_fold_from d (VInt a) n xs = VInt z.
+Proof.
+  intros A. revert a n. induction xs as [|x xs IH]; intros a n; cbn; eauto.
+  unfold cell_upd at 1. unfold is_avg in A. destruct (dc_prim d) eqn:E; try discriminate. apply IH.
+Qed.
+
+Lemma count_seed_sum_star grp : zsum (map (fun _ : row => VInt 1) grp) = Z.of_nat (List.length grp).
+Proof. unfold zsum. induction grp as [|b grp IH]; cbn [map fold_right List.length int_of]; [reflexivity|]. rewrite IH. lia. Qed.
+
+Lemma count_seed_sum_col i grp :
+  zsum (map (fun b : row => match nth i b VNull with VNull => VInt 0 | _ => VInt 1 end) grp) =
+  Z.of_nat (List.length (filter (fun g => negb (value_eqb (nth i g VNull) VNull)) grp)).
+Proof.
+  unfold zsum. induction grp as [|b grp IH]; cbn [map fold_right filter]; [reflexivity|].
+  rewrite IH. destruct (nth i b VNull); cbn [int_of value_eqb negb List.length]; lia.
+Qed.
+
+Lemma cell_fold_ok d fs grp :
+  grp <> [] -> item_ok d fs -> Forall (fun b => avg_int d fs b) grp ->
+  cell_ok_lenient d fs grp (cell_fold d (map (seed_cell d fs) grp)) = true.
+Proof.
+  destruct grp as [|b1 rest]; [congruence|]. intros _ I A.
+  unfold cell_ok_lenient, cell_ok, item_ok in *. cbn [map cell_fold].
+  destruct (dc_prim d) as [ | [c|] | c | [[l|c]| | | ]] eqn:Ed; try contradiction.
+  - (* count(c) *)
+    destruct I as [i R]. rewrite R.
+    assert (Es : forall b, seed_cell d fs b = match nth i b VNull with VNull => VInt 0 | _ => VInt 1 end).
+    { intros b. unfold seed_cell, col_idx. rewrite Ed, R. reflexivity. }
+    rewrite Es. unfold cell_upd at 1. rewrite Ed.
+    assert (Em : map (seed_cell d fs) rest = map (fun b : row => match nth i b VNull with VNull => VInt 0 | _ => VInt 1 end) rest)
+      by (apply map_ext; auto).
+    rewrite Em.
+    assert (Hz : exists a, match nth i b1 VNull with VNull => VInt 0 | _ => VInt 1 end = VInt a /\
+                           a = Z.of_nat (List.length (filter (fun g => negb (value_eqb (nth i g VNull) VNull)) [b1]))).
+    { cbn. destruct (nth i b1 VNull); cbn; eauto. }
+    destruct Hz as [a [Ha Hl]]. rewrite Ha, cell_fold_from_count by (unfold is_count; rewrite Ed; auto).
+    rewrite count_seed_sum_col. apply value_eqb_spec. f_equal. subst a.
+    cbn [filter]. destruct (negb (value_eqb (nth i b1 VNull) VNull)); cbn [List.length]; lia.
+  - (* count( * ) *)
+    assert (Es : forall b, seed_cell d fs b = VInt 1) by (intros b; unfold seed_cell; rewrite Ed; reflexivity).
+    rewrite Es. unfold cell_upd at 1. rewrite Ed.
+    assert (Em : map (seed_cell d fs) rest = map (fun _ : row => VInt 1) rest) by (apply map_ext; auto).
+    rewrite Em, cell_fold_from_count by (unfold is_count; rewrite Ed; auto).
+    rewrite count_seed_sum_star. apply value_eqb_spec. f_equal. cbn [List.length]. lia.
+  - (* avg(c) *)
+    destruct I as [i R]. rewrite R.
+    assert (Es : forall b, seed_cell d fs b = nth i b VNull).
+    { intros b. unfold seed_cell, col_idx. rewrite Ed, R. reflexivity. }
+    assert (Ai : forall b, In b (b1 :: rest) -> exists z, nth i b VNull = VInt z).
+    { intros b Hb. rewrite Forall_forall in A. specialize (A b Hb). unfold avg_int, col_idx in A. rewrite Ed, R in A. exact A. }
+    rewrite Es. destruct (Ai b1 (or_introl eq_refl)) as [z1 Hz1]. rewrite Hz1.
+    assert (E1 : cell_upd d true 1 (VInt z1) (VInt z1) = VInt z1).
+    { unfold cell_upd. rewrite Ed. cbn [int_of]. replace (z1 * (1 - 1) + z1)%Z with z1 by lia.
+      rewrite round_div_1. reflexivity. }
+    rewrite E1.
+    destruct rest as [|b2 [|b3 rest']].
+    + (* one row *)
+      apply orb_true_iff. right. cbn [map cell_fold_from fold_right List.length]. rewrite ?Hz1. cbn [int_of].
+      unfold avg_ok. change (Z.of_nat 1) with 1%Z. cbn [Z.eqb]. apply Z.leb_le. lia.
+    + (* two rows *)
+      destruct (Ai b2 (or_intror (or_introl eq_refl))) as [z2 Hz2].
+      apply orb_true_iff. right. cbn [map cell_fold_from fold_right List.length]. rewrite ?Es, ?Hz1, ?Hz2.
+      assert (E2 : cell_upd d false (1 + 1) (VInt z2) (VInt z1) = VInt (round_div (z1 + (z2 + 0)) 2)).
+      { unfold cell_upd. rewrite Ed. cbn [int_of]. f_equal. f_equal. lia. }
+      rewrite E2. cbn [int_of]. unfold avg_ok. change (Z.of_nat 2) with 2%Z. cbn [Z.eqb].
+      apply Z.leb_le. apply (round_div_near (z1 + (z2 + 0)) 2). lia.
+    + (* three or more rows: only an integer is required *)
+      destruct (cell_fold_from_avg_int d z1 1 (map (seed_cell d fs) (b2 :: b3 :: rest'))) as [z Hz];
+        [unfold is_avg; rewrite Ed; auto|].
+      rewrite Hz. reflexivity.
+  - (* plain column *)
+    destruct I as [i R]. rewrite R.
+    rewrite cell_fold_from_plain by (unfold is_avg, is_count; rewrite Ed; auto).
+    unfold cell_upd. rewrite Ed. unfold seed_cell, col_idx. rewrite Ed, R. apply value_eqb_spec. reflexivity.
+Qed.
+
+Lemma cells_fold_ok sl fs grp :
+  grp <> [] -> Forall (fun d => item_ok d fs) sl -> Forall (fun b => Forall (fun d => avg_int d fs b) sl) grp ->
+  cells_ok_lenient sl fs grp (group_rep sl (map (seed sl fs) grp)) = true.
+Proof.
+  intros NE I A. induction sl as [|d sl IH].
+  - destruct grp as [|b rest]; [congruence|]. cbn. rewrite rep_fold_nil. reflexivity.
+  - rewrite group_rep_cons by auto. cbn [cells_ok_lenient]. inversion I; subst.
+    rewrite cell_fold_ok; auto.
+    + cbn. apply IH; auto. eapply Forall_impl; [|exact A]. intros b Hb. inversion Hb; auto.
+    + eapply Forall_impl; [|exact A]. intros b Hb. inversion Hb; auto.
+Qed.
+
+(* ---------------------------------------------------------------------------------- *)
+(* from the loop invariant to the specification                                        *)
+
+Lemma filter_map_swap {A B} (f : A -> B) (p : B -> bool) l : filter p (map f l) = map f (filter (fun x => p (f x)) l).
+Proof. induction l as [|a l IH]; cbn; auto. destruct (p (f a)); cbn; rewrite IH; reflexivity. Qed.
+
+Lemma key_eqb_iff a b : key_eqb a b = true <-> a = b.
+Proof. apply list_eqb_spec. apply value_eqb_spec. Qed.
+
+Lemma bool_eq_iff (a b : bool) : (a = true <-> b = true) -> a = b.
+Proof. destruct a, b; intros [H1 H2]; auto; try (symmetry; apply H1; reflexivity); try (apply H2; reflexivity). Qed.
+
+Lemma nonempty_in {A} (l : list A) : l <> [] -> exists x, In x l.
+Proof. destruct l as [|a l]; [congruence|]. intros _. exists a. left; auto. Qed.
+
+Lemma filter_all_true {A} (p : A -> bool) l : (forall x, p x = true) -> filter p l = l.
+Proof. intros H. induction l as [|a l IH]; cbn; auto. rewrite H, IH. reflexivity. Qed.
+
+Section Final.
+Variables (sl : list derivedcol) (gb : list colref) (fs : list field) (base : list row).
+Hypothesis T : typed sl gb fs base.
+
+Let seeds := map (seed sl fs) base.
+
+Lemma seeds_good : Forall (row_good sl) seeds.
+Proof.
+  unfold seeds. rewrite Forall_forall. intros m Hm. apply in_map_iff in Hm. destruct Hm as [b [<- Hb]].
+  apply seed_ints. apply (ty_items _ _ _ _ T).
+  pose proof (ty_avg _ _ _ _ T) as A. rewrite Forall_forall in A. auto.
+Qed.
+
+Lemma seed_length b : List.length (seed sl fs b) = List.length sl.
+Proof. unfold seed. apply map_length. Qed.
+
+(* what the invariant says about one entry of the final state *)
+Lemma entry_spec gs k s :
+  Inv sl gb gs seeds -> In (k, s) gs ->
+  exists grp b1 rest,
+    grp = b1 :: rest /\
+    grp = filter (fun b => gkey_eqb (mkey sl gb (seed sl fs b)) k) base /\
+    mkey sl gb (seed sl fs b1) = k /\ In b1 base /\
+    fst s = group_rep sl (map (seed sl fs) grp) /\
+    key_of_out sl (fst s) = key_of_base sl fs b1.
+Proof.
+  intros I H. destruct (inv_state _ _ _ _ I _ _ H) as [NE [Hr _]].
+  unfold members, seeds in *. rewrite filter_map_swap in *.
+  remember (filter (fun b => gkey_eqb (mkey sl gb (seed sl fs b)) k) base) as grp eqn:Eg.
+  destruct grp as [|b1 rest]; [cbn in NE; congruence|].
+  assert (Hb1 : In b1 (filter (fun b => gkey_eqb (mkey sl gb (seed sl fs b)) k) base)) by (rewrite <- Eg; left; auto).
+  apply filter_In in Hb1. destruct Hb1 as [Hin Hk]. apply gkey_eqb_iff in Hk.
+  exists (b1 :: rest), b1, rest. split; [reflexivity|]. split; [reflexivity|]. split; [exact Hk|].
+  split; [exact Hin|]. split; [exact Hr|].
+  rewrite Hr. cbn [map].
+  destruct (group_rep_key sl (seed sl fs b1) (map (seed sl fs) rest)) as [K _].
+  - constructor; [apply seed_length|]. rewrite Forall_forall. intros m Hm. apply in_map_iff in Hm.
+    destruct Hm as [b [<- _]]. apply seed_length.
+  - transitivity (key_of_out sl (seed sl fs b1)); [exact K|]. apply key_of_out_seed. apply (ty_items _ _ _ _ T).
+Qed.
+
+Lemma group_of_entry k b1 :
+  mkey sl gb (seed sl fs b1) = k ->
+  filter (fun b => gkey_eqb (mkey sl gb (seed sl fs b)) k) base = group_of sl fs base (key_of_base sl fs b1).
+Proof.
+  intros Hk. unfold group_of. apply filter_ext. intros b. apply bool_eq_iff.
+  rewrite gkey_eqb_iff, key_eqb_iff, <- Hk.
+  rewrite (keys_equiv sl gb _ _ (ty_shape _ _ _ _ T) (seed_length b) (seed_length b1)).
+  rewrite !key_of_out_seed by apply (ty_items _ _ _ _ T). reflexivity.
+Qed.
+
+Lemma avg_sub grp : (forall b, In b grp -> In b base) -> Forall (fun b => Forall (fun d => avg_int d fs b) sl) grp.
+Proof.
+  intros H. rewrite Forall_forall. intros b Hb. pose proof (ty_avg _ _ _ _ T) as A. rewrite Forall_forall in A. auto.
+Qed.
+
+Theorem loop_meets_spec gs :
+  gb <> [] -> Inv sl gb gs seeds ->
+  AggSpecLenient sl gb fs base (map (fun g => fst (snd g)) gs).
+Proof.
+  intros NG I. unfold AggSpecLenient, AggSpecG. destruct gb as [|g0 gb'] eqn:Egb; [congruence|]. rewrite <- Egb in *.
+  split; [|split].
+  - (* pairwise different grouping values *)
+    pose proof (inv_nodup _ _ _ _ I) as ND.
+    assert (Hinj : forall e1 e2, In e1 gs -> In e2 gs ->
+                key_of_out sl (fst (snd e1)) = key_of_out sl (fst (snd e2)) -> fst e1 = fst e2).
+    { intros [k1 s1] [k2 s2] H1 H2 E. cbn in *.
+      destruct (entry_spec _ _ _ I H1) as [? [b1 [? [_ [_ [M1 [_ [_ K1]]]]]]]].
+      destruct (entry_spec _ _ _ I H2) as [? [b2 [? [_ [_ [M2 [_ [_ K2]]]]]]]].
+      rewrite K1, K2 in E. rewrite <- M1, <- M2.
+      apply (keys_equiv sl gb _ _ (ty_shape _ _ _ _ T) (seed_length b1) (seed_length b2)).
+      rewrite !key_of_out_seed by apply (ty_items _ _ _ _ T). exact E. }
+    rewrite map_map. clear I. induction gs as [|e gs' IH]; cbn; [constructor|].
+    inversion ND as [|? ? Hn ND']; subst. constructor.
+    + intros Hin. apply in_map_iff in Hin. destruct Hin as [e' [E He']].
+      apply Hn. apply in_map_iff. exists e'. split; auto.
+      symmetry. apply Hinj; cbn; auto.
+    + apply IH; auto. intros e1 e2 H1 H2. apply Hinj; cbn; auto.
+  - (* the grouping values of out are those of base *)
+    intros kv. rewrite map_map. split.
+    + intros Hin. apply in_map_iff in Hin. destruct Hin as [[k s] [E He]]. cbn in E.
+      destruct (entry_spec _ _ _ I He) as [? [b1 [? [_ [_ [_ [Hb [_ K]]]]]]]].
+      apply in_map_iff. exists b1. split; auto. congruence.
+    + intros Hin. apply in_map_iff in Hin. destruct Hin as [b [E Hb]].
+      assert (Hk : In (mkey sl gb (seed sl fs b)) (map fst gs)).
+      { apply (inv_keys _ _ _ _ I). exists (seed sl fs b). split; auto. unfold seeds. apply in_map. exact Hb. }
+      apply in_map_iff in Hk. destruct Hk as [[k s] [Ek He]]. cbn in Ek.
+      destruct (entry_spec _ _ _ I He) as [? [b1 [? [_ [_ [M1 [_ [_ K]]]]]]]].
+      apply in_map_iff. exists (k, s). split; auto. cbn. rewrite K, <- E.
+      rewrite <- !key_of_out_seed by apply (ty_items _ _ _ _ T).
+      apply (keys_equiv sl gb _ _ (ty_shape _ _ _ _ T) (seed_length b1) (seed_length b)). congruence.
+  - (* every row is computed over its group *)
+    intros o Ho. apply in_map_iff in Ho. destruct Ho as [[k s] [<- He]]. cbn.
+    destruct (entry_spec _ _ _ I He) as [grp [b1 [rest [Eg [Ef [M1 [Hb [Hr K]]]]]]]].
+    rewrite K, <- (group_of_entry k b1 M1), <- Ef, Hr.
+    apply cells_fold_ok.
+    + rewrite Eg. discriminate.
+    + apply (ty_items _ _ _ _ T).
+    + apply avg_sub. intros b Hb'. rewrite Ef in Hb'. apply filter_In in Hb'. tauto.
+Qed.
+
+(* without GROUP BY every row has the empty key: one group, the whole input *)
+Theorem loop_meets_spec_nogroup gs :
+  gb = [] -> base <> [] -> Inv sl gb gs seeds ->
+  exists s, gs = [([], s)] /\ cells_ok_lenient sl fs base (fst s) = true.
+Proof.
+  intros EG NB I.
+  assert (MK : forall r, mkey sl gb r = []) by (intros r; rewrite EG; reflexivity).
+  assert (Hk : forall k, In k (map fst gs) <-> k = []).
+  { intros k. rewrite (inv_keys _ _ _ _ I). split.
+    - intros [r [_ <-]]. apply MK.
+    - intros ->. destruct (nonempty_in base NB) as [b Hb].
+      exists (seed sl fs b). split; [unfold seeds; apply in_map; exact Hb | apply MK]. }
+  pose proof (inv_nodup _ _ _ _ I) as ND.
+  destruct gs as [|[k s] gs'].
+  - exfalso. apply (proj2 (Hk [])); auto.
+  - assert (k = []) by (apply Hk; left; auto). subst k.
+    destruct gs' as [|[k' s'] gs''].
+    + exists s. split; auto.
+      destruct (entry_spec _ _ _ I (or_introl eq_refl)) as [grp [b1 [rest [Eg [Ef [_ [_ [Hr _]]]]]]]].
+      assert (Eb : grp = base).
+      { rewrite Ef. apply filter_all_true. intros b. rewrite MK. reflexivity. }
+      rewrite Hr, Eb. apply cells_fold_ok; auto.
+      * apply (ty_items _ _ _ _ T).
+      * apply (ty_avg _ _ _ _ T).
+    + exfalso. assert (k' = []) by (apply Hk; right; left; auto). subst k'.
+      inversion ND as [|? ? Hn _]; subst. apply Hn. left; auto.
+Qed.
+
+End Final.
